@@ -32,6 +32,20 @@ def specIns (d : Dict) (k v : Nat) : Opt → Dict × Except Err Pair
     | some _ => (d, .error .eexist)
     | none => (d.set k v, .ok (k, v))
 
+/-- the ideal dictionary's side of hawk_htb_cbsert: the callback `f` sees the stored value (if any) and
+    decides: refuse, keep the pair, or replace/create it with the value it built -/
+def specCb (d : Dict) (k : Nat) (f : Option Nat → CbAns) : Dict × Except Err Pair :=
+  match d k with
+  | some w =>
+    match f (some w) with
+    | .fail => (d, .error .ecb)
+    | .keep => (d, .ok (k, w))
+    | .fresh v => (d.set k v, .ok (k, v))
+  | none =>
+    match f none with
+    | .fresh v => (d.set k v, .ok (k, v))
+    | _ => (d, .error .ecb)
+
 def specDel (d : Dict) (k : Nat) : Dict × Except Err Unit :=
   match d k with
   | some _ => (d.erase k, .ok ())
@@ -209,6 +223,132 @@ theorem insertG_refines (c : Cfg) (t : Htb) (h : WF c t) (k v : Nat) (opt : Opt)
             exact ⟨chainFind_none.mp hnone, hw1.nodup _ _ hbi⟩
           · simp only [List.length_cons]; omega
 
+/-- the table with the value under an existing key replaced in its chain -/
+theorem setVal_table (c : Cfg) (t : Htb) (h : WF c t) (k old v : Nat)
+    (hf : chainFind k (bucketAt t (c.hash k % t.capa)) = some (k, old)) :
+    WF c { t with buckets := t.buckets.set (c.hash k % t.capa) (chainSet k v (bucketAt t (c.hash k % t.capa))) } ∧
+    abs c { t with buckets := t.buckets.set (c.hash k % t.capa) (chainSet k v (bucketAt t (c.hash k % t.capa))) }
+      = (abs c t).set k v := by
+  have hi := h.idx k
+  have hbi := bucketAt_eq hi
+  constructor
+  · have := h.set hi (chainSet k v (bucketAt t (c.hash k % t.capa))) t.size ?_ ?_ ?_
+    · exact this
+    · intro p hp
+      have : p.1 ∈ (chainSet k v (bucketAt t (c.hash k % t.capa))).map Prod.fst := List.mem_map.mpr ⟨p, hp, rfl⟩
+      rw [chainSet_keys] at this
+      rcases List.mem_map.mp this with ⟨q, hq, hqp⟩
+      rw [← hqp]; exact h.place _ _ hbi q hq
+    · rw [chainSet_keys]; exact h.nodup _ _ hbi
+    · rw [chainSet_length]
+  · funext k'
+    have := find_set c t (c.hash k % t.capa) (chainSet k v (bucketAt t (c.hash k % t.capa))) t.size hi k'
+    simp only [abs, Dict.set]
+    rw [this, chainFind_chainSet]
+    by_cases hk : k' = k
+    · subst hk; simp [hf]
+    · rw [if_neg hk, if_neg hk]
+      by_cases hb : c.hash k' % t.capa = c.hash k % t.capa
+      · rw [if_pos hb, find, hb]
+      · rw [if_neg hb]
+
+/-- the table with a pair for a missing key linked at the head of its chain -/
+theorem addNew_table (c : Cfg) (t : Htb) (h : WF c t) (k v : Nat) (hd : abs c t k = none) :
+    WF c { t with buckets := t.buckets.set (c.hash k % t.capa) ((k, v) :: bucketAt t (c.hash k % t.capa)), size := t.size + 1 } ∧
+    abs c { t with buckets := t.buckets.set (c.hash k % t.capa) ((k, v) :: bucketAt t (c.hash k % t.capa)), size := t.size + 1 }
+      = (abs c t).set k v := by
+  have hi := h.idx k
+  have hbi := bucketAt_eq hi
+  have hnone : chainFind k (bucketAt t (c.hash k % t.capa)) = none := by
+    simp only [abs, find, Option.map_eq_none_iff] at hd; exact hd
+  constructor
+  · refine h.set hi ((k, v) :: bucketAt t (c.hash k % t.capa)) (t.size + 1) ?_ ?_ ?_
+    · intro p hp
+      rcases List.mem_cons.mp hp with hp | hp
+      · rw [hp]
+      · exact h.place _ _ hbi p hp
+    · simp only [List.map_cons, List.nodup_cons]
+      exact ⟨chainFind_none.mp hnone, h.nodup _ _ hbi⟩
+    · simp only [List.length_cons]; omega
+  · funext k'
+    have := find_set c t (c.hash k % t.capa) ((k, v) :: bucketAt t (c.hash k % t.capa)) (t.size + 1) hi k'
+    simp only [abs, Dict.set]
+    rw [this]
+    by_cases hk : k' = k
+    · subst hk; simp [chainFind_cons_eq]
+    · rw [if_neg hk, chainFind_cons_ne hk]
+      by_cases hb : c.hash k' % t.capa = c.hash k % t.capa
+      · rw [if_pos hb, find, hb]
+      · rw [if_neg hb]
+
+/-- the optional reorganization at the start of an insertion of a missing key: invariant and dictionary are
+    kept, the oracle only loses answers, and the bucket index used afterwards is the right one for the
+    (possibly new) capacity — whether or not `hc` was recomputed -/
+theorem maybeReorg_facts (c : Cfg) (t : Htb) (h : WF c t) (k : Nat) (o : Oracle) :
+    let rr := if t.threshold > 0 ∧ t.size ≥ t.threshold then reorganize c t o else (t, false, o)
+    WF c rr.1 ∧ abs c rr.1 = abs c t ∧ (false ∈ rr.2.2 → false ∈ o) ∧
+    (if rr.2.1 = true then c.hash k % rr.1.capa else c.hash k % t.capa) = c.hash k % rr.1.capa := by
+  intro rr
+  refine ⟨?_, ?_, ?_, ?_⟩
+  · simp only [rr]; split; exact reorganize_wf h o; exact h
+  · funext k'; simp only [rr]; unfold abs; split; exact reorganize_find h o k'; rfl
+  · simp only [rr]; split; exact reorganize_orc o; exact id
+  · split
+    · rfl
+    · rename_i hb
+      have : rr.1.capa = t.capa := by
+        simp only [rr] at hb ⊢; split
+        · rename_i hc; rw [if_pos hc] at hb; exact reorganize_capa_of_fail o (by simpa using hb)
+        · rfl
+      rw [this]
+
+/-- hawk_htb_cbsert: the invariant is kept, and either the call did and returned exactly what the ideal
+    dictionary does with that callback, or the allocator refused the callback's hawk_htb_allocpair, the
+    call failed with ENOMEM and the dictionary is unchanged -/
+theorem cbsert_refines (c : Cfg) (t : Htb) (h : WF c t) (k : Nat) (f : Option Nat → CbAns) (o : Oracle) :
+    let r := cbsert c t k f o
+    WF c r.tb ∧ ((abs c r.tb, r.ret) = specCb (abs c t) k f ∨
+                 (r.ret = .error .enomem ∧ abs c r.tb = abs c t ∧ false ∈ o)) := by
+  intro r
+  simp only [r, cbsert]
+  cases hf : chainFind k (bucketAt t (c.hash k % t.capa)) with
+  | some p =>
+    have ⟨_, hpk⟩ := chainFind_some hf
+    have hp : p = (k, p.2) := by cases p; simp_all
+    have hd : abs c t k = some p.2 := find_of_chainFind hf
+    simp only [specCb, hd]
+    cases hans : f (some p.2) with
+    | fail => exact ⟨h, Or.inl rfl⟩
+    | keep => simp only; exact ⟨h, Or.inl (by rw [← hp])⟩
+    | fresh v =>
+      simp only
+      rw [hp] at hf
+      have hsv := setVal_table c t h k p.2 v hf
+      cases hn : o.next with
+      | mk b o' =>
+        cases b with
+        | false => exact ⟨h, Or.inr ⟨rfl, rfl, next_false_mem hn⟩⟩
+        | true => simp only; exact ⟨hsv.1, Or.inl (by rw [hsv.2])⟩
+  | none =>
+    have hd : abs c t k = none := by simp [abs, find, hf]
+    have hm := maybeReorg_facts c t h k o
+    simp only at hm
+    generalize (if t.threshold > 0 ∧ t.size ≥ t.threshold then reorganize c t o else (t, false, o)) = rr at hm
+    obtain ⟨hw1, ha1, ho1, hc1⟩ := hm
+    simp only [specCb, hd, hc1]
+    have hd1 : abs c rr.1 k = none := by rw [ha1]; exact hd
+    have hadd := fun v => addNew_table c rr.1 hw1 k v hd1
+    cases hans : f none with
+    | fail => simp only; exact ⟨hw1, Or.inl (by rw [ha1])⟩
+    | keep => simp only; exact ⟨hw1, Or.inl (by rw [ha1])⟩
+    | fresh v =>
+      simp only
+      cases hn : rr.2.2.next with
+      | mk b o2 =>
+        cases b with
+        | false => exact ⟨hw1, Or.inr ⟨rfl, ha1, ho1 (next_false_mem hn)⟩⟩
+        | true => simp only; exact ⟨(hadd v).1, Or.inl (by rw [(hadd v).2, ha1])⟩
+
 /-- delete: the invariant is kept and the call does and returns exactly what the ideal dictionary does -/
 theorem delete_refines (c : Cfg) (t : Htb) (h : WF c t) (k : Nat) :
     let r := delete c t k
@@ -284,6 +424,7 @@ theorem clear_refines (c : Cfg) (t : Htb) (h : WF c t) :
 
 inductive Op where
   | ins (opt : Opt) (k v : Nat) (o : Oracle)
+  | cbsert (k : Nat) (f : Option Nat → CbAns) (o : Oracle)
   | delete (k : Nat)
   | search (k : Nat)
   | clear
@@ -295,12 +436,14 @@ inductive Ret where
 
 def step (c : Cfg) (t : Htb) : Op → Htb × Ret
   | .ins opt k v o => let r := insertG c t k v opt o; (r.tb, .pair r.ret)
+  | .cbsert k f o => let r := cbsert c t k f o; (r.tb, .pair r.ret)
   | .delete k => let r := delete c t k; (r.1, .code r.2.1)
   | .search k => (t, .pair (search c t k))
   | .clear => ((clear t).1, .code (.ok ()))
 
 def specStep (d : Dict) : Op → Dict × Ret
   | .ins opt k v _ => let r := specIns d k v opt; (r.1, .pair r.2)
+  | .cbsert k f _ => let r := specCb d k f; (r.1, .pair r.2)
   | .delete k => let r := specDel d k; (r.1, .code r.2)
   | .search k => (d, .pair (specSearch d k))
   | .clear => (Dict.empty, .code (.ok ()))
@@ -319,6 +462,8 @@ inductive SpecStep : Dict → Op → Ret → Dict → Prop
   | ideal (d : Dict) (op : Op) : SpecStep d op (specStep d op).2 (specStep d op).1
   | refused (d : Dict) (opt : Opt) (k v : Nat) (o : Oracle) :
       false ∈ o → SpecStep d (.ins opt k v o) (.pair (.error .enomem)) d
+  | refusedCb (d : Dict) (k : Nat) (f : Option Nat → CbAns) (o : Oracle) :
+      false ∈ o → SpecStep d (.cbsert k f o) (.pair (.error .enomem)) d
 
 inductive SpecRun : Dict → List Op → List Ret → Dict → Prop
   | nil (d : Dict) : SpecRun d [] [] d
@@ -328,6 +473,7 @@ inductive SpecRun : Dict → List Op → List Ret → Dict → Prop
 theorem step_wf (c : Cfg) (t : Htb) (h : WF c t) (op : Op) : WF c (step c t op).1 := by
   cases op with
   | ins opt k v o => exact (insertG_refines c t h k v opt o).1
+  | cbsert k f o => exact (cbsert_refines c t h k f o).1
   | delete k => exact (delete_refines c t h k).1
   | search k => exact h
   | clear => exact (clear_refines c t h).1
@@ -341,6 +487,12 @@ theorem step_refines (c : Cfg) (t : Htb) (h : WF c t) (op : Op) :
       simp only [specStep, ← he] at this
       exact this
     · simp only [step, hr, ha]; exact SpecStep.refused _ _ _ _ _ ho
+  | cbsert k f o =>
+    rcases (cbsert_refines c t h k f o).2 with he | ⟨hr, ha, ho⟩
+    · have := SpecStep.ideal (abs c t) (.cbsert k f o)
+      simp only [specStep, ← he] at this
+      exact this
+    · simp only [step, hr, ha]; exact SpecStep.refusedCb _ _ _ _ ho
   | delete k =>
     have he := (delete_refines c t h k).2
     have := SpecStep.ideal (abs c t) (.delete k)
@@ -370,6 +522,7 @@ theorem run_refines (c : Cfg) (t : Htb) (h : WF c t) (ops : List Op) :
 /-- no allocator refusal anywhere in the op -/
 def Op.calm : Op → Prop
   | .ins _ _ _ o => false ∉ o
+  | .cbsert _ _ o => false ∉ o
   | _ => True
 
 theorem step_refines_exact (c : Cfg) (t : Htb) (h : WF c t) (op : Op) (hc : op.calm) :
@@ -377,6 +530,10 @@ theorem step_refines_exact (c : Cfg) (t : Htb) (h : WF c t) (op : Op) (hc : op.c
   cases op with
   | ins opt k v o =>
     rcases (insertG_refines c t h k v opt o).2 with he | ⟨_, _, ho⟩
+    · simp only [step, specStep, ← he]
+    · exact absurd ho hc
+  | cbsert k f o =>
+    rcases (cbsert_refines c t h k f o).2 with he | ⟨_, _, ho⟩
     · simp only [step, specStep, ← he]
     · exact absurd ho hc
   | delete k =>
@@ -495,6 +652,16 @@ example : (run cConst (init 2 100) [.ins .insert 1 10 [], .ins .insert 2 20 [], 
       .ins .upsert 2 21 [], .delete 1]).1
     = { buckets := [[], [], [], [(3, 30), (2, 21)]], size := 2, capa := 4, threshold := 4, factor := 100 } := by
   decide
+
+/-- cbsert with an "append" callback: creates the pair, then replaces it in the middle of a collision chain;
+    a refusing callback changes nothing -/
+example :
+    let add (v : Nat) : Option Nat → CbAns := fun | none => .fresh v | some w => .fresh (w + v)
+    (run cConst (init 4 100) [.cbsert 1 (add 10) [], .cbsert 2 (add 20) [], .cbsert 3 (add 30) [], .cbsert 2 (add 5) [],
+      .cbsert 2 (fun _ => .fail) [], .cbsert 3 (fun _ => .keep) []])
+    = ({ buckets := [[], [], [], [(3, 30), (2, 25), (1, 10)]], size := 3, capa := 4, threshold := 4, factor := 100 },
+       [.pair (.ok (1, 10)), .pair (.ok (2, 20)), .pair (.ok (3, 30)), .pair (.ok (2, 25)), .pair (.error .ecb), .pair (.ok (3, 30))]) := by
+  rfl
 
 end Hawk.Htb
 
@@ -658,6 +825,9 @@ theorem exec_balanced (st : Stmt) : Bal (exec st) := by
     · exact iha s
   | ifeq x k b ih => intro s; simp only [exec]; split; exact ih s; rfl
   | call b ih => intro s; exact ih s
+  | del m k => intro s; simp only [exec]; split <;> rfl
+  | delcur m x => intro s; simp only [exec]; split <;> rfl
+  | reset m => intro s; simp only [exec]; split <;> rfl
   | _ => intro s; rfl
 
 /-- language level, no side condition: for any loop body written in the statement language, the loop
@@ -678,6 +848,14 @@ example :
       (.forin 0 0 (.seq (.emit 0) (.seq (.reset 0) (.setcur 0 0 1)))))))
     let r := exec prog ⟨U.init, []⟩
     r.1.user.out.reverse = [1, 5, 9] ∧ r.1.user.var 0 = .arr [(10, 1)] ∧ r.1.stack = [] := by
+  decide
+
+/-! non-vacuity of the error exits: a for-in over a scalar inside a running loop aborts both loops with `err`,
+    after one visit, and the shared snapshot stack is back to empty -/
+example :
+    let prog := Stmt.seq (.set 0 1 1) (.seq (.set 0 2 1) (.seq (.scalar 1) (.forin 0 0 (.seq (.emit 0) (.forin 1 1 .skip)))))
+    let r := exec prog ⟨U.init, []⟩
+    r.2 = .err ∧ r.1.user.out = [1] ∧ r.1.stack = [] := by
   decide
 
 end Hawk.ForIn
